@@ -228,6 +228,8 @@ def make(fmt, rng, variant="plain", natom=None):
     kw = dict(atnums=atnums, atcoords=atcoords, title=title, obasis=obasis, mo=mo, energy=-1.5 * natom)
     if fmt == "fchk":
         kw.update(lot="RHF", obasis_name="sto-3g")
+    if fmt == "wfx":
+        kw.update(lot=rng.choice(["B3LYP", "Restricted HF", "ccsd(t)"]))     # written to the <Model> section
     # what the readers of these formats leave under `extra` (the caller's dictionary, not the writer's scratch space)
     kw["extra"] = {"virial_ratio": 2.00123, "keywords": "GTO", "nested": {"list": [1, 2, {"deep": True}]}}
     if mo.kind == "restricted":
